@@ -1308,6 +1308,83 @@ func (p c01) Run(c *core.Ctx, idx int) {
 			}
 		}
 	}
+	// a uses written directly in an augment of a choice: every node of the grouping becomes a (shorthand) case of its own
+	// name, as if it were written there (RFC7950 Sec 7.9.2, 7.17)
+	if idx%10 == 4 {
+		nodes := []string{"leaf x { type string; }", "container y { leaf y1 { type string; } }", "leaf-list z { type int32; }", "list w { key k; leaf k { type string; } }"}
+		r.Shuffle(len(nodes), func(i, j int) { nodes[i], nodes[j] = nodes[j], nodes[i] })
+		nodes = nodes[:1+r.Intn(len(nodes))]
+		body := strings.Join(nodes, " ")
+		where := []string{"/c/ch", "/c/ch/a/inner"}[r.Intn(2)]
+		base := "container c { choice ch { case a { leaf a1 { type string; } choice inner { leaf i1 { type string; } } } } }"
+		hdr := "module m {\n  namespace \"urn:m\";\n  prefix m;\n  revision 2020-01-01;\n  "
+		inline := hdr + base + "\n  augment \"" + where + "\" { " + body + " }\n}\n"
+		viaUses := hdr + "grouping g { " + body + " }\n  " + base + "\n  augment \"" + where + "\" { uses g; }\n}\n"
+		var trees [2]string
+		ok := true
+		for i, text := range []string{inline, viaUses} {
+			c.Eval()
+			var m *meta.Module
+			var err error
+			if c.Guard("load augment of a choice", func() { m, err = c01load(map[string]string{"m": text}, false) }) {
+				ok = false
+				break
+			}
+			if err != nil {
+				c.Violate("load-error/augment-choice-with-uses", "%v\n%s", err, text)
+				ok = false
+				break
+			}
+			trees[i], _ = c01reduce(m)
+		}
+		c.Shape("augment-choice-with-uses/%d/%s", len(nodes), where)
+		if ok && trees[0] != trees[1] {
+			c.Violate("tree-differs/augment-choice-with-uses", "an augment of a choice compiles differently with its nodes written in place and brought by a uses\n%s\nin place:\n%s\nby uses:\n%s", lineDiff(trees[0], trees[1]), inline, viaUses)
+		}
+	}
+	// conditions: every copy of a grouping's node carries its own when plus those of the uses (and of the augment around the uses)
+	// that made this copy, in that order, and nothing of the other copies
+	if idx%10 == 5 {
+		text := "module m {\n  namespace \"urn:m\";\n  prefix m;\n  revision 2020-01-01;\n" +
+			"  grouping g { leaf p { type int32; } leaf v { when \"p>1\"; type string; } container k { when \"p>2\"; leaf k1 { type string; } } leaf plain { type string; } }\n" +
+			"  container a { leaf o { type int32; } uses g { when \"o>1\"; } }\n" +
+			"  container b { uses g; }\n" +
+			"  container c { leaf r { type int32; } uses g { when \"r>1\"; } }\n" +
+			"  container d { leaf s { type int32; } }\n" +
+			"  augment \"/d\" { when \"s>1\"; uses g { when \"s>2\"; } }\n" +
+			"  container e { uses g; }\n}\n"
+		want := map[string][]string{
+			"a/v": {"p>1", "o>1"}, "a/k": {"p>2", "o>1"}, "a/plain": {"o>1"},
+			"b/v": {"p>1"}, "b/k": {"p>2"}, "b/plain": nil,
+			"c/v": {"p>1", "r>1"}, "c/k": {"p>2", "r>1"}, "c/plain": {"r>1"},
+			"d/v": {"p>1", "s>2", "s>1"}, "d/k": {"p>2", "s>2", "s>1"}, "d/plain": {"s>2", "s>1"},
+			"e/v": {"p>1"}, "e/k": {"p>2"}, "e/plain": nil,
+		}
+		c.Eval()
+		c.Shape("when-chains-of-copies")
+		var m *meta.Module
+		var err error
+		if !c.Guard("load when chains", func() { m, err = c01load(map[string]string{"m": text}, false) }) {
+			if err != nil {
+				c.Violate("load-error/when-chains", "%v\n%s", err, text)
+			} else {
+				for _, site := range []string{"a", "b", "c", "d", "e"} {
+					for _, leaf := range []string{"v", "k", "plain"} {
+						def := meta.Find(m, site+"/"+leaf)
+						var got []string
+						if hw, ok := def.(meta.HasWhen); ok {
+							for w, n := hw.When(), 0; w != nil && n < 10; w, n = w.And(), n+1 {
+								got = append(got, w.Expression())
+							}
+						}
+						if fmt.Sprint(got) != fmt.Sprint(want[site+"/"+leaf]) {
+							c.Violate("when-chain/"+leaf, "%s/%s carries the conditions %q, want %q (its own, then the uses', then the augment's)\n%s", site, leaf, got, want[site+"/"+leaf], text)
+						}
+					}
+				}
+			}
+		}
+	}
 	// illegal construction: config true under config false
 	if idx%10 == 0 {
 		c.Eval()
